@@ -19,6 +19,7 @@ structure ZEntry where
 
 structure DState where
   zones : List (String × ZEntry) := []
+  failed : List String := []
 
 def DState.find (st : DState) (id : String) : Option ZEntry := (st.zones.find? (·.1 == id)).map (·.2)
 def DState.set (st : DState) (id : String) (e : ZEntry) : DState :=
@@ -189,9 +190,14 @@ def zoneOp (st : DState) (toks : List String) : Option (DState × String) :=
       let b ← Bytes.ofHex hex
       let cfg : Tz.LoadCfg := { skipPastEndOk := mode != "strict" }
       let r := Tz.load cfg b
-      if r.flags.any then some (st, flagStr r.flags)
+      if r.flags.any then
+        -- undefined behaviour during the load: the outputs are not comparable, but keep the zone
+        -- (if one was produced) so that later ops on this id stay in step with the harness
+        match r.val with
+        | .ok z => some (st.set id { zone := z }, flagStr r.flags)
+        | _ => some ({ st with zones := st.zones.filter (·.1 != id), failed := id :: st.failed }, flagStr r.flags)
       else match r.val with
-        | .fail => some (st, "fail")
+        | .fail => some ({ st with zones := st.zones.filter (·.1 != id), failed := id :: st.failed }, "fail")
         | .tooLarge => some (st, "toolarge")
         | .ok z => some (st.set id { zone := z },
             s!"ok {z.transitions.size} {z.types.size} {Bytes.toHex z.futureSpec}")
@@ -242,12 +248,36 @@ def zoneOp (st : DState) (toks : List String) : Option (DState × String) :=
       let t ← t.toInt?
       let e ← st.find id
       some (st, showCk (Tz.prevTransition e.zone t) showTransitionOpt)
+  | ["reload", id] =>
+      -- the cache: a name loaded before is answered from the map, the data source is not consulted
+      match st.find id with
+      | some _ => some (st, "ok equal=1 factory=0")
+      | none => if st.failed.contains id then some (st, "fail utc=1 factory=0") else none
+  | [op, id] =>
+      if op == "ntchain" || op == "ptchain" then do
+        let e ← st.find id
+        let fwd := op == "ntchain"
+        let rec go (t : Int) (n : Nat) (h : UInt64) (hint : Nat) (fl : Flags) (fuel : Nat) : Nat × UInt64 × Flags :=
+          match fuel with
+          | 0 => (n, h, fl)
+          | fuel + 1 =>
+            let r := if fwd then Tz.nextTransition e.zone t else Tz.prevTransition e.zone t
+            match r.val with
+            | none => (n, h, fl.or r.flags)
+            | some (f, to) =>
+              let fs := [f.y, f.m, f.d, f.hh, f.mm, f.ss, to.y, to.m, to.d, to.hh, to.mm, to.ss]
+              let ev : UInt64 := fs.foldl (fun acc x => acc * 1000003 + UInt64.ofNat ((x % 18446744073709551616).toNat)) 0
+              let m := Tz.makeTime e.zone hint to
+              go m.val.1.trans (n + 1) (h + (ev ^^^ (ev >>> 29)) * 0x9E3779B97F4A7C15) m.val.2 ((fl.or r.flags).or m.flags) fuel
+        let (n, h, fl) := go (if fwd then i64min else i64max) 0 1469598103934665603 e.mtHint {} 5000
+        if fl.any then some (st, flagStr fl) else some (st, s!"{n} {h.toNat}")
+      else if op == "drop" then some ({ st with zones := st.zones.filter (·.1 != id) }, "ok")
+      else none
   | ["hints", id, a, b] => do
       -- test control: force the hidden hint state of a zone (the harness cannot; it replays history)
       let a ← a.toNat?; let b ← b.toNat?
       let e ← st.find id
       some (st.set id { e with btHint := a, mtHint := b }, "ok")
-  | ["drop", id] => some ({ st with zones := st.zones.filter (·.1 != id) }, "ok")
   | _ => none
 
 def handle (st : DState) (line : String) : DState × String :=
